@@ -65,6 +65,7 @@ class Ctx:
         self.known_hits: Dict[str, int] = {}
         self.known_examples: Dict[str, Any] = {}
         self.level = "exploration"
+        self.replaying = False   # a replay neither rewrites the evidence file nor clears the replay directory
         self.coverage: Dict[str, Any] = {}
         self.assumptions: List[str] = []
 
@@ -108,7 +109,7 @@ class Ctx:
             if n > 0:
                 lines.append(f"KNOWN-FINDING: property={self.prop} {e['what']} [{e['id']}; {n} hits]")
         replay_dir = os.path.join(VERIF, "replays", self.prop)
-        if os.path.isdir(replay_dir):
+        if os.path.isdir(replay_dir) and not self.replaying:
             for name in os.listdir(replay_dir):
                 if name.endswith(".json"):
                     os.unlink(os.path.join(replay_dir, name))
@@ -117,6 +118,10 @@ class Ctx:
             os.makedirs(replay_dir, exist_ok=True)
             h = hashlib.sha256(json.dumps(v["signature"]).encode()).hexdigest()[:12]
             path = os.path.join(replay_dir, f"{h}.json")
+            if self.replaying and os.path.exists(path):
+                lines.append(f"VIOLATION property={self.prop} replay={path}")
+                lines.append(f"  signature={v['signature']} detail={v['detail']} (x{v['count']})")
+                continue
             with open(path, "w") as f:
                 json.dump(
                     {"property": self.prop, "signature": v["signature"], "detail": v["detail"],
@@ -137,8 +142,9 @@ class Ctx:
             "wall_s": round(wall, 2),
             "violations": len(vio_list),
         }
-        with open(os.path.join(VERIF, "evidence", f"{self.prop}.json"), "w") as f:
-            json.dump(ev, f, indent=1, default=repr, sort_keys=True)
+        if not self.replaying:
+            with open(os.path.join(VERIF, "evidence", f"{self.prop}.json"), "w") as f:
+                json.dump(ev, f, indent=1, default=repr, sort_keys=True)
         for ln in lines:
             print(ln)
         print(
@@ -185,6 +191,7 @@ def main(argv: Optional[List[str]] = None) -> int:
         mod = importlib.import_module(f"lspverif.props.{prop.lower()}")
         ctx = Ctx(prop, args.tier, seed)
         if args.replay:
+            ctx.replaying = True
             return mod.replay(ctx, args.replay)
         mod.run(ctx)
         return ctx.finish()
